@@ -1007,3 +1007,53 @@ Proof.
   - intros v Hv. left. auto.
   - eauto.
 Qed.
+
+(* ------------------------------------------------------------------ Part 5: load order and correlations *)
+(* what a leaf knows after the archived record [b] has been merged into its record [a]:
+   its own entries, then the archived ones it lacked *)
+Lemma dget_app_none : forall (c x : list (uid * Z)) v, dget uid_eqb c v = None -> dget uid_eqb (c ++ x) v = dget uid_eqb x v.
+Proof.
+  induction c as [|[k w] t IH]; intros x v H; simpl in *; [reflexivity|].
+  destruct (uid_eqb k v); [discriminate | auto].
+Qed.
+
+Theorem dget_corr_merge : forall b a v,
+  dget uid_eqb (corr_merge a b) v = match dget uid_eqb a v with Some r => Some r | None => dget uid_eqb b v end.
+Proof.
+  induction b as [|[k w] t IH]; intros a v; simpl.
+  - destruct (dget uid_eqb a v); reflexivity.
+  - rewrite IH. unfold dmem. destruct (dget uid_eqb a k) eqn:Ek.
+    + destruct (dget uid_eqb a v) eqn:Ev; [reflexivity|].
+      destruct (uid_eqb k v) eqn:E; [|reflexivity]. apply uid_eqb_eq in E. subst. congruence.
+    + destruct (dget uid_eqb a v) eqn:Ev.
+      * rewrite (dget_app_keep _ _ _ _ Ev). reflexivity.
+      * rewrite (dget_app_none _ _ _ Ev). simpl. destruct (uid_eqb k v); reflexivity.
+Qed.
+
+(* two records of the same leaf that agree wherever both speak (archives written at different
+   times: the later one only ADDS correlations) merge to the same knowledge in either order *)
+Theorem corr_merge_order : forall a b,
+  (forall v r r', dget uid_eqb a v = Some r -> dget uid_eqb b v = Some r' -> r = r') ->
+  forall v, dget uid_eqb (corr_merge a b) v = dget uid_eqb (corr_merge b a) v.
+Proof.
+  intros a b H v. rewrite !dget_corr_merge.
+  destruct (dget uid_eqb a v) eqn:Ea, (dget uid_eqb b v) eqn:Eb; try reflexivity.
+  f_equal. eapply H; eauto.
+Qed.
+
+(* the scenario: A = {x,y} written, THEN r(x,z) declared, THEN B = {x,z} written; a fresh session
+   reads A,B or B,A: x knows z (and z knows x) in both orders *)
+Open Scope string_scope.
+Definition hist_ab : list op :=
+  [ODeclReal None 16 (-1) false; ODeclReal None 16 (-1) false; OSetCorr 0 1 4;
+   OArchive; OAdd 0 [("x", 0%nat); ("y", 1%nat)]; OWrite 0 FJson;
+   ODeclReal None 16 (-1) false; OSetCorr 0 2 2;
+   OArchive; OAdd 1 [("x", 0%nat); ("z", 2%nat)]; OWrite 1 FJson; ONewSession 2].
+Close Scope string_scope.
+Lemma order_ab_ba :
+  let st := run (init_state 1) hist_ab in
+  let ab := run st [ORead 0; ORead 1] in
+  let ba := run st [ORead 1; ORead 0] in
+  corr_of ab (1, 1) (1, 3) = Some 2 /\ corr_of ab (1, 3) (1, 1) = Some 2 /\ corr_of ab (1, 1) (1, 2) = Some 4 /\
+  corr_of ba (1, 1) (1, 3) = Some 2 /\ corr_of ba (1, 3) (1, 1) = Some 2 /\ corr_of ba (1, 1) (1, 2) = Some 4.
+Proof. vm_compute. repeat split; reflexivity. Qed.
